@@ -208,7 +208,10 @@ func TestC20(t *testing.T) {
 			w := walletFromSeed(seed)
 			// The path may already hold an older, longer or shorter file (a previous wallet, unrelated bytes): saving
 			// replaces it entirely.
-			stale := rapid.SliceOfN(rapid.Byte(), 0, 700).Draw(rt, "stale")
+			// (length drawn on its own: rapid's slice generator strongly prefers short slices, and only a stale file
+			// LONGER than the 175-byte wallet file can leave a tail behind)
+			staleLen := rapid.SampledFrom([]int{0, 1, 60, 174, 175, 176, 187, 240, 400, 700, 5000}).Draw(rt, "staleLen")
+			stale := bytes.Repeat([]byte{rapid.Byte().Draw(rt, "staleByte")}, staleLen)
 			if rapid.Bool().Draw(rt, "overStale") {
 				for _, name := range []string{"wallet.sav", "wallet.pem", "wallet.pem.pub"} {
 					if e := os.WriteFile(filepath.Join(dir, name), stale, 0o644); e != nil {
